@@ -105,8 +105,18 @@ def c14_item(rnd, kind, uid0):
     return item, uid[0]
 
 
-def c14_src(item, extra_type_attrs="", vis="pub", generics="<T>", where="where T: Copy", disc=False):
+# items NESTED in constant expressions of the annotated item (a discriminant, an array length, the default of a const parameter): their
+# attributes - helper-named ones included - are not attributes of the annotated type, its variants or their fields, and stay
+NESTED_ITEMS = ["#[derive(Default)] enum Inner { #[default] A, #[doc = \"n\"] B }",
+                "#[derive(::derive_ex::Ex)] #[derive_ex(Debug, Default)] struct Inner { #[debug(ignore)] #[default(3)] x: u8, #[ord(reverse)] #[hash(ignore)] y: u8 }",
+                "#[derive_ex(Clone)] #[eq(bound())] struct Inner(#[partial_eq(ignore)] #[derive_ex(Clone, bound())] u8);",
+                "enum Inner { #[ord(ignore)] #[default] #[debug(transparent)] V(#[partial_ord(reverse)] #[eq(key = $)] u8) }"]
+
+
+def c14_src(item, extra_type_attrs="", vis="pub", generics="<T>", where="where T: Copy", disc=False, nested=None):
     ta = " ".join(a for _, a in item["type_attrs"]) + " " + extra_type_attrs
+    if nested is not None and "const N: usize = 3" in generics:
+        generics = generics.replace("const N: usize = 3", "const N: usize = { %s 3 }" % NESTED_ITEMS[nested % len(NESTED_ITEMS)])
     # items without a type parameter: non-generic, or a lifetime parameter only
     t0 = "T" if "T" in generics else ("&'a u8" if "'a" in generics else "u16")
     if "T" not in generics:
@@ -116,10 +126,11 @@ def c14_src(item, extra_type_attrs="", vis="pub", generics="<T>", where="where T
         fs = []
         for j, f in enumerate(v["fields"]):
             at = " ".join(a for _, a in f["attrs"])
+            u8t = "u8" if nested is None or j != 1 else "[u8; { %s 2 }]" % NESTED_ITEMS[(nested + 1) % len(NESTED_ITEMS)]
             if v["shape"] == "named":
-                fs.append("%s pub(crate) g%d: %s" % (at, j, t0 if j == 0 else "u8"))
+                fs.append("%s pub(crate) g%d: %s" % (at, j, t0 if j == 0 else u8t))
             else:
-                fs.append("%s %s" % (at, t0 if j == 0 else "u8"))
+                fs.append("%s %s" % (at, t0 if j == 0 else u8t))
         if v["shape"] == "named":
             return "{ %s }" % ", ".join(fs)
         if v["shape"] == "tuple":
@@ -134,6 +145,8 @@ def c14_src(item, extra_type_attrs="", vis="pub", generics="<T>", where="where T
     for vi, v in enumerate(item["variants"]):
         at = " ".join(a for _, a in v["attrs"])
         d = " = %d" % (vi * 3) if disc else ""       # (with a primitive repr every kind of variant may carry a discriminant)
+        if disc and nested is not None and vi % 2 == 1:
+            d = " = { %s %d }" % (NESTED_ITEMS[(nested + vi) % len(NESTED_ITEMS)], vi * 3)
         vs.append("%s V%d %s%s" % (at, vi, fields(v), d))
     return "%s %s enum X%s %s { %s }" % (ta, vis, generics, where, ", ".join(vs))
 
@@ -187,7 +200,7 @@ def c14(tier):
                     extra += " #[derive_ex(bound(u8: Q1, ..))] #[derive_ex(bound(u8: Q2, ..))]"
         src = c14_src(item, extra_type_attrs=extra, vis=rnd.choice(["pub", "pub(crate)", ""]),
                       generics=rnd.choice(["<T>", "<T = u8>", "<'a, T: 'a + Copy, const N: usize = 3>", "", "<'a>", "<const N: usize>"]),
-                      where=rnd.choice(["", "where T: Copy"]), disc=rnd.random() < 0.3)
+                      where=rnd.choice(["", "where T: Copy"]), disc=rnd.random() < 0.3, nested=(rnd.randrange(8) if rnd.random() < 0.25 else None))
         cases.append({"item": item, "D": D, "args": args, "src": src, "lists_ok": lists_ok, "extra": extra})
     # misplaced comparison argument on the type: whole failure after the lists were read
     for n in range(N // 20):
